@@ -23,6 +23,24 @@ CLAIMED = {
   ref="DESIGN.md 4/C13"),
 }
 
+CLAIMED.update({
+ "C17": dict(
+  text="Deductive proof over the real decision table ceremony.determineNewIdentityState (all float32 bit patterns, exact SMT FloatingPoint "
+       "comparisons, all prior statuses and flags): a missed session or missing flips never yields or keeps a validated status, invitations are "
+       "terminated, terminated/undefined identities never return, promotions need the published thresholds; determineIdentityBirthday is exact; "
+       "approval needs a strict majority of evidence maps; a cached re-evaluation of a failed validation applies nothing.",
+  note="Trusted: stats collector hooks are observers; score computation (float division) and the bitmap library are inputs/uninterpreted; "
+       "restart-mid-ceremony histories and answer arrival orders are not decided.",
+  ref="DESIGN.md 4/C17"),
+ "C19": dict(
+  text="Deductive proof of the API-key gate: readRequest rejects (invalid-key error, no callback, no unsubscribe flag, no args) every batch element "
+       "whose own key differs from the configured key (loop invariant over the whole batch), parseRequest/parseBatchRequest give every element its "
+       "own key, and handle/exec/execBatch never reach a method invocation or unsubscription for a request carrying an error (ghost invocation counter).",
+  note="Trusted: ServerCodec implementations only parse/serialise; reflect.Value.Call and Notifier.unsubscribe are the only dispatch points "
+       "(ghost counter); encoding/json fills jsonRequest.Key from the \"key\" member; transports and the goroutine glue in serveRequest are not under contract.",
+  ref="DESIGN.md 4/C19"),
+})
+
 PENDING = {
 }
 
